@@ -46,6 +46,7 @@ class FullFrontend(ConstrainedFrontend):
         super()._copy(c)
         c._track = self._track
         c._tls.solver = getattr(self._tls, "solver", None)  # pylint:disable=no-member
+        c._tls.synced = getattr(self._tls, "synced", None)  # pylint:disable=no-member
         c._to_add = list(self._to_add)
 
     #
@@ -84,7 +85,7 @@ class FullFrontend(ConstrainedFrontend):
         if getattr(self._tls, "solver", None) is None:
             self._tls.solver = self._solver_backend.solver(timeout=self.timeout, max_memory=self.max_memory)
             self._add_constraints()
-        elif self._finalized and len(self._to_add) > 0:
+        elif self._finalized and self._pending():
             if not hasattr(self._solver_backend, "clone_solver") or self._solver_backend.reuse_z3_solver:
                 # this function may return a cached solver
                 self._tls.solver = self._solver_backend.solver(timeout=self.timeout, max_memory=self.max_memory)
@@ -92,10 +93,15 @@ class FullFrontend(ConstrainedFrontend):
                 self._tls.solver = self._solver_backend.clone_solver(self._tls.solver)
             self._add_constraints()
 
-        if len(self._to_add) > 0:
+        if self._pending():
             self._add_constraints()
 
         return self._tls.solver
+
+    def _pending(self):
+        # the backend solver is kept per thread, the list of constraints waiting to be added is not: a thread whose
+        # solver was filled before constraints were added (and handed to another thread's solver) still needs them
+        return len(self._to_add) > 0 or getattr(self._tls, "synced", None) != len(self.constraints)
 
     def _add_constraints(self):
         try:
@@ -105,6 +111,7 @@ class FullFrontend(ConstrainedFrontend):
             self._tls.solver = None
             raise
         self._to_add = []
+        self._tls.synced = len(self.constraints)
 
     #
     # Constraint management
